@@ -10,6 +10,10 @@
 \*    rebound there);
 \*  * a function's local is a CELL iff some descendant's free reference resolves to this function;
 \*  * blocks between a free reference and its binder carry the name as an implicit FREE symbol;
+\*  * the name __class__ is special: every CLASS block provides a binding of it for the code nested in
+\*    the class (its methods see the class being defined through an implicit cell of the class block;
+\*    zero-argument super() relies on it); the class block itself has no symbol for it, but owns the
+\*    cell (ClsCell) iff some nested block refers to it;
 \*  * rejected: `global` or `nonlocal` of a parameter, `global` and `nonlocal` of the same name,
 \*    `nonlocal` without an enclosing function binding (includes: at module level).
 EXTENDS SymtableAlg
@@ -19,11 +23,13 @@ AncSeq(Blocks, b) == IF Blocks[b].parent = 0 THEN <<>> ELSE <<Blocks[b].parent>>
 AncSet(Blocks, b) == LET a == AncSeq(Blocks, b) IN { a[i] : i \in 1..Len(a) }
 Desc(Blocks, b) == { d \in 1..Len(Blocks) : b \in AncSet(Blocks, d) }
 \* the function that provides the binding of n for code nested in it, seen from block b; 0 = none.
+CLS == "__class__"
 RECURSIVE BinderIn(_, _, _)
 BinderIn(Blocks, anc, n) ==
   IF anc = <<>> THEN 0
   ELSE LET p == Head(anc) f == Blocks[p].flags[n] IN
-       IF Blocks[p].type # "function" THEN BinderIn(Blocks, Tail(anc), n)
+       IF Blocks[p].type = "class" /\ n = CLS THEN p
+       ELSE IF Blocks[p].type # "function" THEN BinderIn(Blocks, Tail(anc), n)
        ELSE IF "G" \in f THEN 0
        ELSE IF Bound(f) THEN p
        ELSE BinderIn(Blocks, Tail(anc), n)
@@ -42,6 +48,9 @@ ClassifyD(Blocks, b, n) == LET f == Blocks[b].flags[n] IN
    ELSE IF Bound(f) THEN (IF Blocks[b].type = "function" /\ \E d \in Desc(Blocks, b) : RefersFree(Blocks, d, n) /\ Binder(Blocks, d, n) = b
                           THEN CELL ELSE LOC)
    ELSE IF Binder(Blocks, b, n) # 0 THEN FREE ELSE GI
+\* the class block owns the implicit __class__ cell
+ClsCell(Blocks, b) == /\ Blocks[b].type = "class" /\ CLS \in Names
+                      /\ \E d \in Desc(Blocks, b) : RefersFree(Blocks, d, CLS) /\ Binder(Blocks, d, CLS) = b
 ClassTable(Blocks) == TLCEval([b \in 1..Len(Blocks) |-> TLCEval([n \in Names |-> ClassifyD(Blocks, b, n)])])
 AnyErrorD(Blocks) == \E n \in Names : ErrorD(Blocks, n)
 ====
